@@ -124,3 +124,51 @@ Definition sq_contents (s : sq) : list entry :=
 
 Definition out_entries (o : sqout) : list entry :=
   match o with OBatch es => es | _ => [] end.
+
+(* ---------------------------------------------------------------- the bounded entries queue *)
+(* asyncio.Queue(capacity): a push beyond the capacity blocks the producer (this includes the final
+   end / failure marker put by _run: "the finished producer is parked on the full queue").  Entries the
+   producer could not put yet wait in [b_wait]; they enter the queue, in order, as soon as the consumer
+   has taken entries - but never in the middle of the assembly of a batch. *)
+Definition push_raw (s : sq) (e : entry) : sq :=
+  mkSq (q_entries s ++ [e]) (q_held s) (q_stopped s) (q_waiting s) (q_closed s) (q_fut s)
+       (q_pushed s ++ [e]) (q_delivered s) (q_term s).
+
+Record bsq := mkB { b_q : sq; b_cap : nat; b_wait : list entry }.
+
+Definition bsq_init (cap : nat) : bsq := mkB sq_init cap [].
+
+Fixpoint fill (fuel cap : nat) (s : sq) (wait : list entry) : sq * list entry :=
+  match fuel, wait with
+  | S f, e :: w => if Nat.ltb (length (q_entries s)) cap then fill f cap (push_raw s e) w else (s, wait)
+  | _, _ => (s, wait)
+  end.
+
+Definition b_fill (b : bsq) : bsq :=
+  let '(s, w) := fill (length (b_wait b)) (b_cap b) (b_q b) (b_wait b) in mkB s (b_cap b) w.
+
+Definition b_step (b : bsq) (op : sqop) : bsq * list sqout :=
+  match op with
+  | OpPush e =>
+      (* the producer puts what fits, a waiting consumer resumes, the producer goes on *)
+      let b1 := b_fill (mkB (b_q b) (b_cap b) (b_wait b ++ [e])) in
+      let '(s2, o) := resume (b_q b1) in
+      (b_fill (mkB s2 (b_cap b) (b_wait b1)), o)
+  | _ =>
+      let '(s1, o) := sq_step (b_q b) op in
+      (b_fill (mkB s1 (b_cap b) (b_wait b)), o)
+  end.
+
+(* items (values / item futures) that have been pushed but not delivered yet *)
+Definition is_item (e : entry) : bool := match e with EVal _ | EFut _ => true | _ => false end.
+Definition outstanding (b : bsq) : nat :=
+  length (filter is_item ((match q_held (b_q b) with Some e => [e] | None => [] end)
+                          ++ q_entries (b_q b) ++ b_wait b)).
+
+(* outputs, and after every operation: the value of is_stopped() and the number of outstanding items *)
+Fixpoint b_run (b : bsq) (ops : list sqop) : bsq * list sqout * list (bool * nat) :=
+  match ops with
+  | [] => (b, [], [])
+  | op :: r => let '(b1, o1) := b_step b op in
+               let '(b2, o2, f2) := b_run b1 r in (b2, o1 ++ o2, (q_stopped (b_q b1), outstanding b1) :: f2)
+  end.
